@@ -25,6 +25,7 @@ import NomtModel.Driver.ExtRangeMode
 import NomtModel.Driver.OpenPathMode
 import NomtModel.Driver.BtTreeMode
 import NomtModel.Driver.IoPoolMode
+import NomtModel.Driver.StageGlueMode
 /-!
 `nomt_model`: the executable Lean model behind a line protocol.
 First argument selects the sub-protocol; stdin → stdout, one output line per input line.
@@ -69,4 +70,5 @@ def main (args : List String) : IO UInt32 := do
   | ["openpath"] => loop stdin stdout openpathStep (); return 0
   | ["bttree"] => loop stdin stdout BtD.btStep {}; return 0
   | ["iopool"] => loop stdin stdout iopoolStep {}; return 0
+  | ["stageglue"] => loop stdin stdout stageglueStep {}; return 0
   | _ => IO.eprintln "usage: nomt_model <core|...>"; return 2
